@@ -238,16 +238,16 @@ pub fn duplicates(ts: &[Tuple]) -> bool {
 
 fn families_for(prop: &str, quick: bool) -> Vec<&'static str> {
     match prop {
-        "C01" => vec!["F1", "F2", "F3", "F4", "F5", "F6"],
-        "C02" => vec!["F1", "F2", "F3", "F4", "F5", "F6"],
+        "C01" => vec!["F1", "F2", "F3", "F4", "F5", "F6", "F8"],
+        "C02" => vec!["F1", "F2", "F3", "F4", "F5", "F6", "F8"],
         "C03" => vec!["F6", "F5", "F1", "F2"],
         "C06" => vec!["F6"],
-        "C07" => vec!["F1", "F2", "F3", "F4", "F5", "F6", "F7"],
+        "C07" => vec!["F1", "F2", "F3", "F4", "F5", "F6", "F7", "F8"],
         "C08" => {
             if quick {
-                vec!["F2", "F3", "F4"]
+                vec!["F2", "F3", "F4", "F8"]
             } else {
-                vec!["F1", "F2", "F3", "F4"]
+                vec!["F1", "F2", "F3", "F4", "F8"]
             }
         }
         _ => vec!["F1"],
@@ -321,8 +321,8 @@ pub fn run(args: &Args) -> i32 {
     run.put("programs_per_family", json!(fam_counts));
     run.put("edb_budget_per_program", json!(budget));
     run.set_rule(match prop {
-        "C01" => "every program of families F1-F6 (complete within the grammar bounds of harness/src/gen.rs) x every EDB with <=m tuples per relation over D={1,2,3} (all subsets); default optimizer config, 1 worker; engine answer compared as a set with reference evaluator R1. non-trivial = (program,EDB) pairs whose reference answer is non-empty, counted distinct by hash of (program,EDB)",
-        "C02" => "every program of F1-F6 x every small EDB x all 32 optimizer switch combinations; all 32 answers must be equal and equal to R1. evaluation = one engine execution; non-trivial = distinct (program,EDB) with non-empty reference answer",
+        "C01" => "every program of families F1-F6 and F8 (repeated sub-plans) (complete within the grammar bounds of harness/src/gen.rs) x every EDB with <=m tuples per relation over D={1,2,3} (all subsets); default optimizer config, 1 worker; engine answer compared as a set with reference evaluator R1. non-trivial = (program,EDB) pairs whose reference answer is non-empty, counted distinct by hash of (program,EDB)",
+        "C02" => "every program of F1-F6 and F8 (repeated sub-plans) x every small EDB x all 32 optimizer switch combinations; all 32 answers must be equal and equal to R1. evaluation = one engine execution; non-trivial = distinct (program,EDB) with non-empty reference answer",
         "C03" => "programs of F1,F2,F5,F6 x EDBs of up to 16 tuples over D={1..4} x workers in {1,2,3,4,8}; answer(w) must equal answer(1) and R1; non-trivial = distinct (program,EDB) with non-empty answer",
         "C06" => "all aggregate programs of F6 x all small EDBs x all 32 optimizer configurations; engine vs R1 aggregate semantics (distinct body valuations); non-trivial = distinct (program,EDB) with non-empty answer",
         "C07" => "every accepted program of F1-F7 x EDBs; structural check of the answer (no duplicate tuple, arity = head arity, head constants verbatim); non-trivial = distinct (program,EDB) with non-empty engine answer",
